@@ -496,7 +496,7 @@ class C20(Spec):
                 ops.append({"op": "flush"})
             else:
                 ops.append({"op": "align"})
-        return {"ops": ops, "trunc": rng.choice([None, None, rng.randrange(0, 40)]), "seeks": [rng.randrange(1 << 16) for _ in range(rng.choice([0, 0, 2, 4]))]}
+        return {"ops": ops, "trunc": rng.choice([None, None, rng.randrange(0, 40)]), "seeks": [rng.randrange(1 << 16) for _ in range(rng.choice([0, 0, 2, 4]))], "reread": rng.random() < 0.4}
 
     def shrink(self, case):
         for ops in shrink_list(case["ops"]):
@@ -509,6 +509,8 @@ class C20(Spec):
             yield dict(case, trunc=None)
         if case["seeks"]:
             yield dict(case, seeks=[])
+        if case.get("reread"):
+            yield dict(case, reread=False)
 
     def execute(self, case):  # noqa: C901
         import random as _random
@@ -727,12 +729,28 @@ class C20(Spec):
                             break
                         if got_r != want or (use_dec and got_d != want):
                             return viol("C20/bounded-value-mismatch/%s" % io_["op"], "%s: in %d-bit block wrote %r (%d of %d bits fit); model reads %r, BitstreamReader %r, decoder.io %r" % (label, L, io_, fit, slen, want, got_r, got_d))
+                        if case.get("reread") and L >= 0:
+                            # what the bitstream viewer does after every value:
+                            # seek back to where it started and read its (real)
+                            # bits again; later reads must be unaffected
+                            try:
+                                r.seek(*pos_tuple(q))
+                                again = [int(c) for c in r.read_bitarray(fit).to01()]
+                            except Exception as e:  # noqa: BLE001
+                                return viol(exc_sig("C20/reread-raised", e), "seek back + re-read inside a bounded block raised:\n%s" % short_tb(e))
+                            if again != bits[q : q + fit] or r.tell() != pos_tuple(q + fit):
+                                return viol("C20/reread-mismatch", "re-reading %d bits at bit %d inside a %d-bit block gave %r (tell %r), model %r" % (fit, q, L, again, r.tell(), bits[q : q + fit]))
+                            stats["rereads-in-block"] += 1
                         q += fit
                         remaining -= slen
                     if eof:
                         stats["eof-agreed"] += 1
                         break
                     unused = r.bounded_block_end()
+                    if case.get("reread") and L >= 0:
+                        # after re-reads the overshoot is forgotten (documented
+                        # seek behaviour): unused bits are those really left
+                        remaining = max(remaining, 0) if remaining >= 0 else 0
                     if unused != max(0, remaining):
                         return viol("C20/reader-unused-bits", "reader bounded_block_end() %d, model %d" % (unused, max(0, remaining)))
                     hits_eof = q + unused > avail
